@@ -62,3 +62,10 @@ Print Assumptions unversioned_tuple_refuted.
 Theorem tuple_matches_blind : forall w r c p, matches w r (PT c p) = eval (fun _ => false) r.
 Proof. exact tuple_matches_blind_proof. Qed.
 Print Assumptions tuple_matches_blind.
+
+(* outside the known class (the restriction reads no package attribute) the bare-tuple query is exact *)
+Theorem unversioned_tuple_partial : forall w R r got,
+  repo_wf R -> tuple_class r = false -> itermatch w R MUnvTuple r = Some got ->
+  forall o, In o got <-> In o (map as_tuple (brute w R MUnvCPV r)).
+Proof. exact unversioned_tuple_partial_proof. Qed.
+Print Assumptions unversioned_tuple_partial.
